@@ -180,6 +180,11 @@ FAMILIES = {
     "designators": ("len", lambda n: "int a" + "[1]" * n + " = {" + "[0]" * n + " = 1};\n"),
     "designators-struct": ("len", lambda n: "struct s0 {int x;};" + "".join(
         "struct s%d {struct s%d m;};" % (i + 1, i) for i in range(n)) + "struct s%d v = {" % n + ".m" * n + ".x = 1};\n"),
+    # a designator that reaches its member through n anonymous struct/union levels, then continues positionally
+    "designators-anon": ("len", lambda n: "struct s {" + "struct {" * n + "int x; int y;" + "};" * n + "int z;} v = {.x = 1, 2, 3};\n"),
+    "designators-anon-union": ("len", lambda n: "struct s {int a;" + "union { struct {" * n + "int x; int y;" + "}; };" * n + "} v = {.y = 1};\n"),
+    "designators-anon-local": ("len", lambda n: "void f(void){struct {" + "struct {" * n + "int x; char y[3];" + "};" * n + "} v = {.y[1] = 1, 2}; (void)v;}\n"),
+    "offsetof-anon": ("len", lambda n: "struct s {char c;" + "struct {" * n + "int x;" + "};" * n + "}; unsigned long o = __builtin_offsetof(struct s, x);\n"),
     "designators-local": ("len", lambda n: "void f(void){int a" + "[1]" * n + " = {" + "[0]" * n + " = 1};}\n"),
     "init-elide": ("nest", lambda n: "struct s0 {int x;};" + "".join(
         "struct s%d {struct s%d m;};" % (i + 1, i) for i in range(n)) + "struct s%d v = {1};\n" % n),
